@@ -42,15 +42,17 @@ def expected_types(schema, include_deprecated=True):
              "enumValues": None, "possibleTypes": None}
         if isinstance(t, (ObjectType, InterfaceType)):
             e["fields"] = [{"name": f.name, "description": f.description, "args": expected_input_values(f.arguments), "type": type_ref(f.type),
-                            "isDeprecated": bool(f.deprecated), "deprecationReason": f.deprecation_reason if f.deprecated else None}
-                           for f in t.fields if include_deprecated or not f.deprecated]
+                            "isDeprecated": f.deprecation_reason is not None, "deprecationReason": f.deprecation_reason}
+                           for f in t.fields if include_deprecated or f.deprecation_reason is None]
         if isinstance(t, ObjectType):
             e["interfaces"] = sorted(i.name for i in t.interfaces)
         if isinstance(t, (InterfaceType, UnionType)):
-            e["possibleTypes"] = sorted(p.name for p in schema.get_possible_types(t))
+            # from the registry itself, not from the schema's own (memoised) index
+            e["possibleTypes"] = sorted(o.name for o in schema.types.values() if isinstance(o, ObjectType) and (
+                t in o.interfaces if isinstance(t, InterfaceType) else o in t.types))
         if isinstance(t, EnumType):
-            e["enumValues"] = [{"name": v.name, "description": v.description, "isDeprecated": bool(v.deprecated),
-                                "deprecationReason": v.deprecation_reason if v.deprecated else None} for v in t.values if include_deprecated or not v.deprecated]
+            e["enumValues"] = [{"name": v.name, "description": v.description, "isDeprecated": v.deprecation_reason is not None,
+                                "deprecationReason": v.deprecation_reason} for v in t.values if include_deprecated or v.deprecation_reason is None]
         if isinstance(t, InputObjectType):
             e["inputFields"] = expected_input_values(t.fields)
         out[name] = e
@@ -200,6 +202,55 @@ def check_schema(run, schema, label):
     return n
 
 
+def shared_type_schemas():
+    from py_gql.schema import Field, Int, InterfaceType, ObjectType, Schema, String, UnionType
+    shared = InterfaceType("Shared", [Field("x", Int)])
+    a = ObjectType("A", [Field("x", Int)], interfaces=[shared])
+    b = ObjectType("B", [Field("x", Int), Field("y", String)], interfaces=[shared])
+    c = ObjectType("C", [Field("x", Int)], interfaces=[shared])
+    small = Schema(ObjectType("Query", [Field("s", shared)]), types=[a])
+    large = Schema(ObjectType("Query", [Field("s", shared), Field("b", b)]), types=[a, b, c])
+    yield "shared-interface:small", small
+    yield "shared-interface:large", large
+    yield "shared-interface:small-again", small
+    grown = Schema(ObjectType("Query", [Field("s", shared)]), types=[c])
+    yield "shared-interface:other-member", grown
+
+
+def module_state_obligation(run):
+    """frame obligation (all inputs, all histories): the introspection module keeps no mutable module-level container that its functions write -
+    what an introspection resolver returns can then depend only on its arguments (the live schema objects), not on earlier requests"""
+    import ast
+    import inspect
+    import py_gql.schema.introspection as M
+    tree = ast.parse(inspect.getsource(M))
+    containers = {n for n, v in vars(M).items() if isinstance(v, (dict, list, set)) and not n.startswith("__")}
+    written = {}
+    for fn in [x for x in ast.walk(tree) if isinstance(x, (ast.FunctionDef, ast.Lambda))]:
+        for x in ast.walk(fn):
+            tgt = None
+            if isinstance(x, ast.Subscript) and isinstance(x.ctx, (ast.Store, ast.Del)) and isinstance(x.value, ast.Name):
+                tgt = x.value.id
+            if isinstance(x, ast.Call) and isinstance(x.func, ast.Attribute) and isinstance(x.func.value, ast.Name) and x.func.attr in (
+                    "append", "add", "update", "setdefault", "pop", "clear", "extend", "insert", "remove", "discard", "popitem"):
+                tgt = x.func.value.id
+            if isinstance(x, ast.Global):
+                for g in x.names:
+                    written.setdefault(g, x.lineno)
+            if tgt in containers:
+                written.setdefault(tgt, x.lineno)
+    run.cov["obligations"] += 1
+    run.cov["backends"]["module-state typing"] = run.cov["backends"].get("module-state typing", 0) + 1
+    run.cov["functions_under_contract"].append("py_gql.schema.introspection resolvers (frame: module state)")
+    if written:
+        name, line = sorted(written.items())[0]
+        run.violation("introspection:resolvers-write-no-module-state", "py_gql.schema.introspection.%s is module-level state written by a function of the module (line %d): "
+                      "what introspection reports then depends on earlier requests, not only on the schema" % (name, line), {"name": name, "line": line}, False)
+    else:
+        run.cov["discharged"] += 1
+    return 0
+
+
 def check(tier, seed):
     from py_gql import build_schema
     run = Run("C15", tier, seed)
@@ -209,6 +260,11 @@ def check(tier, seed):
         sources += [("edit:%s" % label, (lambda s: (lambda: build_schema(s)))(schemas.apply_edit(schemas.BASE_SDL, o, nw))) for label, o, nw, _e in schemas.EDITS]
     for name, make in sources:
         n += check_schema(run, make(), name)
+    # two schemas built from SHARED type objects with different sets of implementations, and one schema introspected again after a type has been
+    # added to it: the answer is a function of the schema being introspected, not of what was introspected earlier in the process
+    for label, schema in shared_type_schemas():
+        n += check_schema(run, schema, label)
+    n += module_state_obligation(run)
     # ordinary fields are unaffected by the introspection switch (execution schema, world resolver)
     for cfg in ("blocking-executor", "executor-blocking"):
         a = H.run_request(H.make_schema(), "{ me { name age } count }", {}, {}, cfg)
